@@ -324,7 +324,8 @@ func Run(e *core.Env, sc *Scenario) {
 	w.t0 = time.Now()
 	w.net = simnet.New(e, sc.Net, sc.Faults)
 	w.led = tap.NewLedger(e, w)
-	w.led.CheckWindows = sc.has("windows")
+	// the liveness and fairness oracles read the ledger's window accounting
+	w.led.CheckWindows = sc.has("windows") || sc.has("live") || sc.has("fair")
 	w.led.CheckBytes = sc.has("bytes")
 	w.led.CheckStreams = sc.has("streams")
 	// the concurrent-streams ledger of this world is cview.opened (a stream
